@@ -39,6 +39,7 @@ type nativeResult struct {
 	Stack   string         `json:"stack"`
 	Aborted string         `json:"aborted"`
 	Missing []string       `json:"missing"`
+	Notes   []string       `json:"notes"`
 }
 
 // time.Now() in these packages is redirected to the scripted clock during native runs.
